@@ -27,6 +27,8 @@ type c15Case struct {
 	Fasta    bool     `json:"fasta,omitempty"` // -F fasta
 	GuestLen int      `json:"guest_len,omitempty"`
 	Guests   int      `json:"guests,omitempty"` // insert, infix: this many further guest records follow the first in the guest stream
+	Pre      []int    `json:"pre,omitempty"`    // other records (c15Others) placed before the record in the stream ...
+	Post     []int    `json:"post,omitempty"`   // ... and after it: the stream's output must be the outputs of its records one by one
 	Twice    bool     `json:"twice,omitempty"`  // the input stream holds the record twice: both copies must be treated alike
 }
 
@@ -233,6 +235,67 @@ func featureResidues(ff []gts.Feature) (map[string][]posStrand, bool) {
 	return out, true
 }
 
+// c15Others: records unlike the case's own record (other lengths, other tables, none at all) that may share its stream.
+func c15Others(L int) [][]byte {
+	q := func(label, gene string) [][]string { return [][]string{{"label", label}, {"gene", gene}} }
+	return [][]byte{
+		c15RecordNamed("OTHER0", false, L, 11, nil),
+		c15RecordNamed("OTHER1", false, L+7, 23, []Feat{{Key: "gene", Loc: lrg(5, 9), Quals: q("o1", "a")}}),
+		c15RecordNamed("OTHER2", true, L, 5, []Feat{{Key: "CDS", Loc: lco(lrg(3, 12)), Quals: q("o2", "b")}, {Key: "misc_feature", Loc: lrg(10, 15), Quals: q("o3", "c")}}),
+		c15RecordNamed("OTHER3", false, L+7, 31, []Feat{{Key: "gene", Loc: lrg(2, 4), Quals: q("o4", "a")}, {Key: "gene", Loc: lrg(8, 12), Quals: q("o5", "b")}, {Key: "CDS", Loc: lrg(8, 12), Quals: q("o6", "b")}, {Key: "gene", Loc: lco(lrg(15, 19)), Quals: q("o7", "c")}}),
+		c15RecordNamed("OTHER4", true, L, 17, []Feat{{Key: "misc_feature", Loc: lrg(0, 3), Quals: q("o8", "a")}, {Key: "misc_feature", Loc: ljn(lrg(6, 8), lrg(12, 14)), Quals: q("o9", "a")}, {Key: "tRNA", Loc: lrg(16, 18), Quals: q("o10", "c")}}),
+	}
+}
+
+// c15Mixed: the record shares its stream with other records (for infix: the host file). Every command treats the
+// records of a stream one by one, so the output of the stream must be the outputs of the single-record runs in order.
+func c15Mixed(c c15Case, env cliEnv, what string, main []byte) *Violation {
+	others := c15Others(c.L)
+	var recs [][]byte
+	for _, k := range c.Pre {
+		recs = append(recs, others[mod(k, len(others))])
+	}
+	recs = append(recs, main)
+	for _, k := range c.Post {
+		recs = append(recs, others[mod(k, len(others))])
+	}
+	gl := maxInt(c.GuestLen, 1)
+	guestRec := c15RecordNamed("GUEST", false, gl, 44, []Feat{{Key: "misc_feature", Loc: lrg(0, gl), Quals: [][]string{{"label", "guest"}}}})
+	guestPath, hostPath := filepath.Join(env.dir, "mixed-guest.gb"), filepath.Join(env.dir, "mixed-host.gb")
+	os.WriteFile(guestPath, guestRec, 0o644)
+	invoke := func(stream []byte) cliResult {
+		switch c.Cmd {
+		case "insert":
+			return env.run(c.argv(c.Locators[0], guestPath), stream, false)
+		case "infix":
+			os.WriteFile(hostPath, stream, 0o644)
+			return env.run(c.argv(c.Locators[0], hostPath), guestRec, false)
+		case "extract":
+			return env.run(c.argv(c.Locators...), stream, false)
+		}
+		return env.run(c.argv(c.Locators[0]), stream, false)
+	}
+	var cat, all []byte
+	for _, r := range recs {
+		res := invoke(r)
+		if res.Exit != 0 {
+			skipCase("other-record-rejected")
+			return nil
+		}
+		cat = append(cat, res.Out...)
+		all = append(all, r...)
+	}
+	res := invoke(all)
+	if res.Exit != 0 {
+		return viol("stream", "%s: a stream of %d records (others %v before, %v after) is rejected (exit %d: %s) although each record alone is accepted", what, len(recs), c.Pre, c.Post, res.Exit, clipStr(res.Stderr, 200))
+	}
+	if !bytes.Equal(res.Out, cat) {
+		i := firstDiff(string(res.Out), string(cat))
+		return viol("stream", "%s: the output for a stream of %d records (others %v before, %v after) differs from the outputs of its records one by one at byte %d: stream %q, one by one %q", what, len(recs), c.Pre, c.Post, i, clipStr(string(res.Out[maxInt(0, i-80):]), 240), clipStr(string(cat[maxInt(0, minInt(i, len(cat))-80):]), 240))
+	}
+	return nil
+}
+
 func c15Check(c c15Case) *Violation {
 	initPool()
 	input := c15Record(c)
@@ -240,6 +303,11 @@ func c15Check(c c15Case) *Violation {
 	env := newCliEnv()
 	defer env.remove()
 	what := fmt.Sprintf("gts %s %v (L=%d circ=%v flag=%v fasta=%v)", c.Cmd, c.Locators, c.L, c.Circ, c.Flag, c.Fasta)
+	if len(c.Pre)+len(c.Post) > 0 {
+		if v := c15Mixed(c, env, what, input); v != nil {
+			return v
+		}
+	}
 
 	var regions []mRegion
 	for _, lt := range c.Locators {
@@ -760,6 +828,9 @@ func c15Classify(c c15Case) (bool, []string) {
 	if c.Guests > 0 {
 		labels = append(labels, "several-guests")
 	}
+	if len(c.Pre)+len(c.Post) > 0 {
+		labels = append(labels, "mixed-stream")
+	}
 	var regions []mRegion
 	for _, lt := range c.Locators {
 		rr, ok := resolveLocator(lt, c.L, c.Feats)
@@ -810,6 +881,10 @@ func c15Gen(t *rapid.T) c15Case {
 		GuestLen: drawCount(t, 1, 5, 300, "guestlen"), Twice: rapid.IntRange(0, 2).Draw(t, "twice") == 0}
 	if c.Cmd == "insert" || c.Cmd == "infix" {
 		c.Guests = rapid.SampledFrom([]int{0, 0, 1, 2, 3}).Draw(t, "guests")
+	}
+	if rapid.IntRange(0, 3).Draw(t, "mixed") == 0 {
+		c.Pre = rapid.SliceOfN(rapid.IntRange(0, 4), 0, 2).Draw(t, "pre")
+		c.Post = rapid.SliceOfN(rapid.IntRange(0, 4), 0, 2).Draw(t, "post")
 	}
 	// 1..6 labelled features: overlapping, nested, unsorted, complement, joins (disjoint ascending parts)
 	n := rapid.IntRange(1, 6).Draw(t, "nfeat")
@@ -897,6 +972,19 @@ func TestC15(t *testing.T) {
 		}
 	}
 	e.done(true)
+	// mixed streams: the record between / before / after records with other tables, other lengths or no table at all
+	ex := enumPart(t, c15Prop, st, "mixed-streams")
+	for _, cmd := range []string{"delete", "insert", "infix", "split", "rotate", "extract"} {
+		for _, loc := range []string{"gene", "CDS", "/gene=c", "/gene=[bc]", "/label=f[05]", "misc_feature", "tRNA", "10..20", "@^", "CDS@^..^+1", "gene@$"} {
+			for k, pp := range [][2][]int{{{0}, nil}, {nil, {0}}, {{3}, {0}}, {{1, 2}, {4}}, {nil, {3, 0}}, {{4, 0}, {1}}, {{2}, {2}}} {
+				flag := k%2 == 1 && cmd != "split" && cmd != "rotate"
+				if !ex.try(c15Case{Cmd: cmd, L: 56, Circ: k%3 == 0, Feats: feats, Locators: []string{loc}, Flag: flag, GuestLen: 3, Pre: pp[0], Post: pp[1]}) {
+					return
+				}
+			}
+		}
+	}
+	ex.done(true)
 	// multi-segment scenarios: features of three and four segments (short inner segments, either strand) located with
 	// modifiers whose bounds fall into every segment and onto every junction
 	em := enumPart(t, c15Prop, st, "multi-segment-scenarios")
